@@ -18,7 +18,7 @@ func checkC08(r *Report) {
 	e := runEffect(p)
 	pathTrusted(r)
 	effectTrusted(r)
-	r.Explain = "Only the clauses of C08 that are visible in the shape of the code are decided; consistency of the backtracking search over all universes is not. C08.a SNAPSHOT-ISOLATED: a new search state is built from Clone/Copy of the previous one (resolution.pushNewState), versionMap.Clone re-makes both its map and its stack and fills them, and criterion.copy re-makes the two maps that are later updated in place, so backtracking to an earlier state finds it unchanged. C08.b VERSIONMAP: the pin table's map and insertion stack are written only by its own Set/Pop/Clone, and Set/Pop update both on every path, so there is one pinned version per package. C08.c GRAPH-SHAPE (buildGraph): a node is added only for a pin that has a route to the root and only when the package has no node yet, the id is recorded in the package-keyed table in the same step (one node per package, every node reachable), and every recorded requirement of a selected package ends in AddEdge, an error return, or the one documented skip (the parent has no node). C08.d ROOT-FIXED: for a requirement on the root's package provider.matchingVersions returns nothing but the root version. C08.g MEMO-NEGATIVE: a recursive search over the (cyclic) parent relation that uses one map both as its on-the-path marker and as its memo of negative answers (marks the node false before recursing, answers false for any node found false) computes a correct answer only for the node the query started from; the false it leaves on nodes met while an ancestor was still on the path is not final. Such a function (hasRouteToRoot) may keep its negatives only after a query that failed; every caller has to discard them on the success side of the call, or a selected version is later judged disconnected and dropped together with the edges to it. C08.f CRIT-MAP-FROZEN: a criterion stored in a search state is shared with the older states kept for backtracking (criteria.Copy is shallow), so its extras/incompatibilities maps are never updated in place: every map update, and every call whose callee (by its effect summary) writes the map it is given, acts on a fresh map or on the maps of a criterion just produced by copy(). C08.e PARENT-KEY: the test by which mergeIntoCriterion decides that a (requirement, parent) pair is already recorded reads every component of the parent that the readers of the recorded parents (buildGraph, hasRouteToRoot) distinguish; otherwise the record of a replaced parent version stands in for the pinned one and the dependency is dropped as disconnected. Not decided: that the selected versions satisfy their specifiers, pip's prerelease rule, marker evaluation, and everything about which candidates the search pins."
+	r.Explain = "Only the clauses of C08 that are visible in the shape of the code are decided; consistency of the backtracking search over all universes is not. C08.a SNAPSHOT-ISOLATED: a new search state is built from Clone/Copy of the previous one (resolution.pushNewState), versionMap.Clone re-makes both its map and its stack and fills them, and criterion.copy re-makes the two maps that are later updated in place, so backtracking to an earlier state finds it unchanged. C08.b VERSIONMAP: the pin table's map and insertion stack are written only by its own Set/Pop/Clone, and Set/Pop update both on every path, so there is one pinned version per package. C08.c GRAPH-SHAPE (buildGraph): a node is added only for a pin that has a route to the root and only when the package has no node yet, the id is recorded in the package-keyed table in the same step (one node per package, every node reachable), and every recorded requirement of a selected package ends in AddEdge, an error return, or the one documented skip (the parent has no node). C08.d ROOT-FIXED: for a requirement on the root's package provider.matchingVersions returns nothing but the root version. C08.h CRITERION-COMPLETE: a criterion built as a struct literal sets every field of the type (a criterion is otherwise derived with copy()); a literal that leaves a field out silently resets what the package had accumulated there (its requested extras, its incompatibilities) when the criterion is patched or merged. C08.g MEMO-NEGATIVE: a recursive search over the (cyclic) parent relation that uses one map both as its on-the-path marker and as its memo of negative answers (marks the node false before recursing, answers false for any node found false) computes a correct answer only for the node the query started from; the false it leaves on nodes met while an ancestor was still on the path is not final. Such a function (hasRouteToRoot) may keep its negatives only after a query that failed; every caller has to discard them on the success side of the call, or a selected version is later judged disconnected and dropped together with the edges to it. C08.f CRIT-MAP-FROZEN: a criterion stored in a search state is shared with the older states kept for backtracking (criteria.Copy is shallow), so its extras/incompatibilities maps are never updated in place: every map update, and every call whose callee (by its effect summary) writes the map it is given, acts on a fresh map or on the maps of a criterion just produced by copy(). C08.e PARENT-KEY: the test by which mergeIntoCriterion decides that a (requirement, parent) pair is already recorded reads every component of the parent that the readers of the recorded parents (buildGraph, hasRouteToRoot) distinguish; otherwise the record of a replaced parent version stands in for the pinned one and the dependency is dropped as disconnected. Not decided: that the selected versions satisfy their specifiers, pip's prerelease rule, marker evaluation, and everything about which candidates the search pins."
 	r.Assume = []string{"hasRouteToRoot is correct (its termination is decided under C04.4)"}
 
 	// ---- a. SNAPSHOT-ISOLATED
@@ -369,6 +369,7 @@ func checkC08(r *Report) {
 	parentKeyRule(r, p, "C08.e/PARENT-KEY")
 	critMapFrozenRule(r, p, e, "C08.f/CRIT-MAP-FROZEN")
 	memoNegativeRule(r, p, "C08.g/MEMO-NEGATIVE")
+	criterionLiteralRule(r, p, "C08.h/CRITERION-COMPLETE")
 	sortObls(r)
 }
 
@@ -977,4 +978,57 @@ func sameMapValue(a, b ssa.Value) bool {
 		return v
 	}
 	return root(a) == root(b)
+}
+
+// criterionLiteralRule: see checkC08 (C08.h).
+func criterionLiteralRule(r *Report, p *Prog, rule string) {
+	n := 0
+	for _, f := range p.Funcs {
+		if f.Pkg == nil || f.Pkg.Pkg.Path() != modPrefix+"resolve/pypi" || f.Blocks == nil {
+			continue
+		}
+		perFn := 0
+		for _, b := range f.Blocks {
+			for _, in := range b.Instrs {
+				al, ok := in.(*ssa.Alloc)
+				if !ok || al.Comment != "complit" {
+					continue
+				}
+				st, ok := al.Type().Underlying().(*types.Pointer).Elem().Underlying().(*types.Struct)
+				if !ok || !strings.HasSuffix(al.Type().String(), "resolve/pypi.criterion") {
+					continue
+				}
+				set := map[int]bool{}
+				if al.Referrers() != nil {
+					for _, rf := range *al.Referrers() {
+						if fa, ok := rf.(*ssa.FieldAddr); ok && fa.Referrers() != nil {
+							for _, u := range *fa.Referrers() {
+								if s, ok := u.(*ssa.Store); ok && s.Addr == fa {
+									set[fa.Field] = true
+								}
+							}
+						}
+					}
+				}
+				if len(set) == 0 {
+					continue // the zero criterion of an error return
+				}
+				n++
+				perFn++
+				key := fmt.Sprintf("%s: criterion literal #%d", fnKey(f), perFn)
+				var missing []string
+				for i := 0; i < st.NumFields(); i++ {
+					if !set[i] {
+						missing = append(missing, st.Field(i).Name())
+					}
+				}
+				if len(missing) > 0 {
+					r.bad(rule, key, p.pos(al.Pos()), fmt.Sprintf("a criterion is built field by field without %v: what the package had accumulated there is silently reset (a package requested with an extra loses it, and the requirements guarded by that extra drop out of the graph)", missing))
+				} else {
+					r.ok(rule, key, p.pos(al.Pos()), "sets every field of the type")
+				}
+			}
+		}
+	}
+	r.floor(rule, "non-empty criterion literals in package pypi", n, 1)
 }
